@@ -33,13 +33,13 @@ func init() {
 		Rule: "TLS configurations {server authentication only (also with a TLS 1.3 minimum, against clients that go no further than 1.2); client certificate required and verified (harness PKI on a gldap.Server, and testdirectory.Start(WithMTLS))} x offending client behaviours {plaintext LDAP request of each of " +
 			"the seven operations carrying a unique tag; arbitrary bytes; TCP connect without ClientHello; partial ClientHello; and - where a certificate is required - a TLS 1.2 and a TLS 1.3 handshake without certificate " +
 			"followed immediately by a tagged bind (in TLS 1.3 the client finishes first, so the request is already in flight when the server rejects), a certificate from a different CA, an expired certificate, certificate-less and foreign-CA clients that offer TLS 1.0/1.1 only, and a client certificate that is valid for ANOTHER test directory / GetTLSConfig call of the same process}; plaintext requests are also followed by further writes on the same socket; a session that satisfies the configuration is closed with close_notify both ways and the client then sends a tagged plaintext request on the same TCP connection; " +
-			"run concurrently with conforming clients that are verified; also crafted chains (a foreign leaf followed by certificates the configured CA did issue), configurations that deliver their certificate or themselves through callbacks (one of them on top of a lenient outer configuration, on a server that logs at Debug level), a different configuration given to NewServer, and abandoned handshakes held open while a conforming client must be served within 10s; every server is stopped while three peers that never got through a handshake are still connected (the mux also routes the Notice-of-Disconnection name); TLS ports are probed (plaintext, no certificate, conforming) after accept outages of 40ms, 400ms and 1.5s (descriptor shortage); the directory is also offered a certificate forged below its own client certificate (signed with that certificate's key, presented with it as intermediate; TLS 1.2 and 1.3). Oracle: after each offending connection has been reported closed, no handler record (recording handlers / the test directory's own handler log) carries an offending tag. " +
+			"run concurrently with conforming clients that are verified; also crafted chains (a foreign leaf followed by certificates the configured CA did issue), configurations that deliver their certificate or themselves through callbacks (one of them on top of a lenient outer configuration, on a server that logs at Debug level), a different configuration given to NewServer, and abandoned handshakes held open while a conforming client must be served within 10s; every server is stopped while three peers that never got through a handshake are still connected (the mux also routes the Notice-of-Disconnection name); TLS ports are probed (plaintext, no certificate, conforming) after accept outages of 40ms, 400ms and 1.5s (descriptor shortage), and after a further Run with a port-less address (and no option, or a laxer configuration) on the running server had failed; test directories (TLS, WithMTLS) are started on a port somebody else still holds for 150ms/450ms: whatever answers there afterwards does not answer plaintext; the directory is also offered a certificate forged below its own client certificate (signed with that certificate's key, presented with it as intermediate; TLS 1.2 and 1.3). Oracle: after each offending connection has been reported closed, no handler record (recording handlers / the test directory's own handler log) carries an offending tag. " +
 			"distinct_nontrivial = distinct (configuration, behaviour, operation) combinations",
 		Assume: []string{"for the test directory, handler execution is observed through its own Info-level handler log lines (bind/search/add/modify/delete handlers log the DN) and through directory state"},
 		Phases: func(tier string, seed int64) []Phase {
 			return []Phase{{Name: "gating", Run: c18Run}, {Name: "testdirectory-mtls", Run: c18Directory}}
 		},
-		MinObserved: []string{"offending_connections", "tls_ports_probed_after_an_accept_outage", "conforming_ops_verified", "tls13_no_cert_requests_in_flight", "directory_offending_connections", "stranger_certificates_prepared", "certificates_forged_below_the_directorys_client_certificate", "conforming_clients_served_next_to_abandoned_handshakes", "sessions_carried_over_to_a_server_with_another_ca", "conforming_sessions_closed_properly_then_continued_in_plaintext", "stops_with_abandoned_handshakes_pending", "configurations_with_a_tls13_minimum_checked"},
+		MinObserved: []string{"offending_connections", "tls_ports_probed_after_a_further_run_had_failed", "directories_started_on_a_port_that_was_still_taken", "tls_ports_probed_after_an_accept_outage", "conforming_ops_verified", "tls13_no_cert_requests_in_flight", "directory_offending_connections", "stranger_certificates_prepared", "certificates_forged_below_the_directorys_client_certificate", "conforming_clients_served_next_to_abandoned_handshakes", "sessions_carried_over_to_a_server_with_another_ca", "conforming_sessions_closed_properly_then_continued_in_plaintext", "stops_with_abandoned_handshakes_pending", "configurations_with_a_tls13_minimum_checked"},
 	})
 }
 
@@ -387,9 +387,142 @@ func c18AfterAcceptOutage(c *Ctx) {
 	}
 }
 
+// c18FurtherRun: Run is called once more on the running TLS server - with an address that lacks a port, without any
+// option (a configuration reload gone wrong). That call fails; the port goes on refusing everything but TLS sessions
+// that satisfy the configuration the server was started with.
+func c18FurtherRun(c *Ctx) {
+	pki := newPKI()
+	for i := 0; i < 4; i++ {
+		mtls := i%2 == 1
+		stc, ctc := pki.ServerOnly, pki.ClientPlain
+		if mtls {
+			stc, ctc = pki.ServerMTLS, pki.ClientCert
+		}
+		var served atomic.Int64
+		srv, err := startSrv(SrvCfg{TLS: stc}, func(m *gldap.Mux) {
+			m.Bind(func(w *gldap.ResponseWriter, r *gldap.Request) {
+				if bm, err := r.GetSimpleBindMessage(); err == nil && strings.HasPrefix(bm.UserName, "cn=offender") {
+					served.Add(1)
+				}
+				w.Write(r.NewBindResponse(gldap.WithResponseCode(0)))
+			})
+		})
+		if err != nil {
+			c.Inconclusive("server start: " + err.Error())
+			return
+		}
+		bad := []string{"no-port-here", "127.0.0.1", "", "[::1]"}[i]
+		ret := make(chan error, 1)
+		go func() {
+			if i >= 2 {
+				// ... or with a laxer configuration than the one the server runs with
+				ret <- srv.S.Run(bad, gldap.WithTLSConfig(pki.ServerOnly))
+				return
+			}
+			ret <- srv.S.Run(bad)
+		}()
+		select {
+		case <-ret:
+		case <-time.After(patience):
+			c.Inconclusive(fmt.Sprintf("Run(%q) on a running server did not return", bad))
+			srv.StopWithin(patience)
+			return
+		}
+		det := map[string]any{"further_run_address": bad, "client_certificates_required": mtls}
+		for k := 0; k < 3; k++ {
+			if cn, err := net.DialTimeout("tcp", srv.Addr, 5*time.Second); err == nil {
+				cn.Write(sber.Message(1, sber.BindRequest(3, []byte("cn=offender-plaintext"), []byte("p")), nil).Encode())
+				cn.SetReadDeadline(time.Now().Add(300 * time.Millisecond))
+				io.Copy(io.Discard, cn)
+				cn.Close()
+				c.Count("offending_connections", 1)
+			}
+			if mtls {
+				if cl, err := dialRaw(srv.Addr, pki.ClientPlain); err == nil {
+					cl.Send(sber.Message(1, sber.BindRequest(3, []byte("cn=offender-without-certificate"), []byte("p")), nil).Encode())
+					cl.ReadMsg(300 * time.Millisecond)
+					cl.Close()
+					c.Count("offending_connections", 1)
+				}
+			}
+		}
+		if n := served.Load(); n > 0 {
+			c.Violate("a handler ran for bytes outside a TLS session satisfying the configuration", fmt.Sprintf("after a further Run(%q) on the running TLS server had failed, %d requests of clients that sent plaintext LDAP (or, client certificates being required: %v, presented none) reached the bind handler", bad, n, mtls), det)
+		}
+		if cl, err := dialRaw(srv.Addr, ctc); err != nil {
+			c.Violate("a conforming TLS client was refused", fmt.Sprintf("after a further Run(%q) on the running TLS server had failed: %v", bad, err), det)
+		} else {
+			cl.Send(sber.Message(9, sber.BindRequest(3, []byte("cn=conforming"), []byte("p")), nil).Encode())
+			if m, err := cl.ReadMsg(patience); err != nil || m.ID != 9 {
+				c.Violate("a conforming TLS client was not served", fmt.Sprintf("after a further Run(%q) on the running TLS server had failed: %v", bad, err), det)
+			} else {
+				c.Count("conforming_ops_verified", 1)
+				c.Count("tls_ports_probed_after_a_further_run_had_failed", 1)
+			}
+			cl.Close()
+		}
+		srv.StopWithin(patience)
+	}
+}
+
+// c18DirectoryOnABusyPort: a test directory (TLS, or WithMTLS) is started on a port that somebody else still holds and
+// lets go of a moment later. Whether the directory comes up at all is not this property's business; if anything
+// answers on that port afterwards, it does not answer plaintext LDAP.
+func c18DirectoryOnABusyPort(c *Ctx) {
+	for i, hold := range []time.Duration{150 * time.Millisecond, 450 * time.Millisecond} {
+		l, err := net.Listen("tcp", "127.0.0.1:0")
+		if err != nil {
+			c.Inconclusive("listen: " + err.Error())
+			return
+		}
+		port := l.Addr().(*net.TCPAddr).Port
+		logger := hclog.New(&hclog.LoggerOptions{Name: "td", Level: hclog.Off})
+		tl, _ := testdirectory.NewLogger(logger)
+		opts := []testdirectory.Option{testdirectory.WithPort(tl, port), testdirectory.WithLogger(tl, logger)}
+		if i%2 == 0 {
+			opts = append(opts, testdirectory.WithMTLS(tl))
+		}
+		done := make(chan *testdirectory.Directory, 1)
+		go func() {
+			var td *testdirectory.Directory
+			catch(func() { td = testdirectory.Start(tl, opts...) })
+			done <- td
+		}()
+		time.Sleep(hold)
+		l.Close()
+		var td *testdirectory.Directory
+		select {
+		case td = <-done:
+		case <-time.After(patience):
+			c.Inconclusive("testdirectory.Start on a busy port did not return")
+			return
+		}
+		time.Sleep(300 * time.Millisecond)
+		det := map[string]any{"port_released_after": hold.String(), "mtls": i%2 == 0}
+		for k := 0; k < 3; k++ {
+			cn, err := net.DialTimeout("tcp", fmt.Sprintf("127.0.0.1:%d", port), time.Second)
+			if err != nil {
+				break // nothing listens there: nothing is served
+			}
+			cn.Write(sber.Message(1, sber.BindRequest(3, []byte("cn=offender-plaintext,ou=people,dc=example,dc=org"), []byte("p")), nil).Encode())
+			if m, err := wrapClient(cn).ReadMsg(time.Second); err == nil && m.Op.Tag == sber.AppBindResponse {
+				c.Violate("a handler ran for bytes outside a TLS session satisfying the configuration", fmt.Sprintf("a test directory started with TLS (WithMTLS: %v) on a port that was released %s after Start was called answers a plaintext bind (message id %d)", i%2 == 0, hold, m.ID), det)
+				cn.Close()
+				break
+			}
+			cn.Close()
+		}
+		c.Count("directories_started_on_a_port_that_was_still_taken", 1)
+		if td != nil {
+			catch(func() { td.Stop() })
+		}
+	}
+}
+
 func c18Run(c *Ctx) {
 	c18SessionAcrossServers(c)
 	c18AfterAcceptOutage(c)
+	c18FurtherRun(c)
 	pki := newPKI()
 	for _, cfgName := range []string{"server-auth-only", "client-cert-required", "server-auth-only-certificate-from-callback", "client-cert-required-config-from-callback", "client-cert-required-while-NewServer-was-given-another-config", "server-auth-only-run-on-localhost", "client-cert-required-run-on-localhost", "server-auth-only-tls13-minimum", "client-cert-required-by-callback-on-top-of-a-lenient-config-debug-logger"} {
 		mtls := strings.HasPrefix(cfgName, "client-cert-required")
@@ -609,6 +742,7 @@ func c18Run(c *Ctx) {
 
 // c18Directory runs the offending behaviours against testdirectory.Start(WithMTLS).
 func c18Directory(c *Ctx) {
+	c18DirectoryOnABusyPort(c)
 	// a CA that the HOST trusts (system roots are pointed at it before anything loads them): that is about servers the
 	// process talks to, not about who may talk to the directory
 	hostCA, hostKey, hostDER := genCA("ca-trusted-by-the-host")
